@@ -181,3 +181,11 @@ Lemma reimport_caught_p :
   let '(s', r) := exec shipped (PBlock [PTry (POp (ImportDs 0)); POp (Assoc 0)]) s_imp in
   r = Normal /\ mem 0 (ds (cur s')) = true /\ mem 0 (loc (cur s')) = true /\ tags (cur s') = [0] /\ fget 0 (fs s') = None.
 Proof. vm_compute. repeat split. Qed.
+
+(* ---------------------------------------------------------------------------------------------------------- *)
+(* undo replay of a Move ingest when a removal inside the same block has already deleted the artifact: nothing to move
+   back, the error is swallowed, the staged source file is lost (run_undo, UBack) *)
+Lemma staged_file_lost_p :
+  let '(s', r) := exec shipped (PBlock [POp (Ingest Move 2); POp (Purge 2); PFail]) (init e0) in
+  r = Raised false /\ cur s' = cur (init e0) /\ fget 2 (ext (init e0)) = Some 102 /\ fget 2 (ext s') = None /\ fget 2 (fs s') = None.
+Proof. vm_compute. repeat split. Qed.
